@@ -166,6 +166,37 @@ CHECKS = {
         note="Trusted: vf.exact Poly/RatFun, vf.spec.to_spec, the Fraction reference solver "
              "(self-checked on every system). Composite leaves are opaque atoms; acceptance of "
              "solvable systems is counted, not demanded."),
+    "C05": dict(
+        category="model_checking", design="DESIGN.md 4/C05",
+        technique="explicit-state BFS over call histories on one memoizing mapper instance, "
+                  "lock-step against a fresh non-memoizing counterpart, for every cached/uncached "
+                  "pair and every class the mapper optimizer produces",
+        text="For 10 cached/uncached mapper pairs and every class optimize_mapper produces from "
+             "four source classes (all legal on/off combinations of its five options, each also "
+             "after an earlier use of the optimizer in the same process), every history of calls "
+             "(expression from a pool built for sharing and typed twins x extra-argument tuple) "
+             "up to the largest depth fitting the transition budget (quick 15k, thorough 250k per "
+             "pair; depth 3-5; 2.5M transitions thorough) is replayed on a fresh instance. After "
+             "every transition the result is compared strictly (constant types included) with a "
+             "fresh non-memoizing mapper and the handler log must not contain a strict key twice.",
+        note="Trusted: vf/spec.py to_spec as the strict comparison, the handler-logging "
+             "subclass. State canon = history with exact repeats removed (soundness argument and "
+             "its run-time check in the evidence assumptions)."),
+    "C10": dict(
+        category="exploration", design="DESIGN.md 4/C10",
+        technique="bounded-exhaustive tree enumeration against exact forward-mode dual numbers "
+                  "in a formal-atom rational-function field",
+        text="All trees of the differentiable fragment to depth 3 (quick 25k, thorough 110k), "
+             "every differentiation variable (present, absent, subscript; name, object and mapper "
+             "forms) and all three non-smoothness settings: the returned derivative is compared "
+             "with an independently computed forward-mode derivative at every point of an exact "
+             "rational grid by exact equality in Q(atoms), no floating tolerance. Refusal is "
+             "demanded exhaustively for fabs, sign, If and unknown functions; CSE sharing and all "
+             "call histories up to length 3 over re-used mapper instances are covered.",
+        note="Trusted: vf.exact RatFun, vf.refsem. Atoms are treated as algebraically "
+             "independent (a pass is sound, a mismatch is triaged). A float shadow only picks the "
+             "side of a break point; break points and out-of-domain points are skipped and "
+             "counted. A bare `log` in results is accepted as the natural logarithm."),
 }
 
 NOT_BUILT_REASON = "check not built yet in this revision (planned, see DESIGN.md section 4)"
